@@ -2,6 +2,7 @@
   C05 — backtracking is atomic: abandoned paths leave no trace, kept paths lose nothing.
 -/
 import ChumskyModel.Proofs.Lemmas.Top
+import ChumskyModel.Proofs.Lemmas.ExtAll
 set_option linter.unusedSimpArgs false
 namespace Chumsky
 
@@ -92,6 +93,37 @@ example :
       | _ => (none, [])) = (some (.tok 120), [⟨(0, 1), .custom 5, []⟩]) := by
   decide
 
+/-! ### grammars with extensions (`EEnv`: Pratt tables and nested-input parsers containing each other)
+
+  The same two statements for the extension machine `runE` against its reading `pegE`: through every operator rewind of
+  `pratt_go` and through the sub-context of every nested parse (whose secondary errors are appended to the outer list only
+  when the nested parse returns), the caller's secondary errors are extended by exactly the emissions of the surviving path,
+  and a failure leaves them a prefix. -/
+
+theorem c05_extensions_atomic (e : EEnv) (n : Nat) (env : Env) (m : Mode) (g : G) (st : St) (hm : env.memoOn = false) :
+    match runE e n env m g st, pegE e n env g st.ss st.ctx with
+    | .ok _ st', .ok _ s' em => (∃ new, st'.errs = st.errs ++ new ∧ EmsRel new em) ∧ st'.ss = s'
+    | .fail st', .fail => st.errs <+: st'.errs
+    | .panic w, .panic w' => w = w'
+    | .oof, .oof => True
+    | _, _ => False := by
+  have h := runE_refines e n env m g st hm
+  revert h
+  cases runE e n env m g st <;> cases pegE e n env g st.ss st.ctx <;> simp [Refines]
+  · exact fun h => ⟨h.errs, h.ss⟩
+  · exact fun h => h.errs
+
+theorem c05_extensions_reported_errors (e : EEnv) (n : Nat) (env : Env) (m : Mode) (g : G) (hm : env.memoOn = false)
+    (r : ParseResult) (f : St) (h : parseTopE e n env m g = .result r f) (v : Val) (ho : r.output = some v) :
+    ∃ v' s em, pegTopE e n env g = .ok v' s em ∧ EmsRel f.errs em ∧ r.errs = f.errs.map (·.err) ∧ f.ss = s := by
+  have ht := parseTopE_refines e n env m g hm
+  rw [h] at ht
+  cases hp : pegTopE e n env g <;> rw [hp] at ht <;> simp only [TopRefines] at ht
+  · exact ⟨_, _, _, rfl, ht.2.2.1, ht.2.2.2, ht.2.1⟩
+  · rw [ho] at ht; simp at ht
+
+#print axioms c05_extensions_atomic
+#print axioms c05_extensions_reported_errors
 #print axioms c05_atomic
 #print axioms c05_reported_errors
 #print axioms c05_rewind_restores
